@@ -36,7 +36,7 @@ Gcd(a, b) == CHOOSE g \in 1..(IF a < b THEN a ELSE b) :
                a % g = 0 /\ b % g = 0 /\ \A h \in (g+1)..(IF a < b THEN a ELSE b) : ~(a % h = 0 /\ b % h = 0)
 Lcm(a, b) == (a \div Gcd(a, b)) * b
 \* X rescaled to denominator den (a multiple of X.den)
-Rescale(X, den) == FromFlat([i \in 1..Len(FlatT(X)) |-> FlatT(X)[i] * (den \div X.den)], X.shape, den)
+Rescale(X, den) == FromFlat(TLCEval([i \in 1..Len(FlatT(X)) |-> FlatT(X)[i] * (den \div X.den)]), X.shape, den)
 
 \* ======================= accumulation (skip / loop / feedback) =======================
 \* Acc(kind, x, others): x combined with the tensors in the sequence `others` (all of x's shape)
@@ -48,23 +48,23 @@ Accumulate(kind, X, others) ==
   IF k = 0 THEN X
   ELSE IF kind = "overwrite" THEN others[k]
   ELSE IF kind = "multiply"
-    THEN FromFlat([i \in 1..Len(FlatT(X)) |->
-                     FoldFunction(LAMBDA a, b : a * b, FlatT(X)[i], [j \in 1..k |-> FlatT(others[j])[i]])],
+    THEN FromFlat(TLCEval([i \in 1..Len(FlatT(X)) |->
+                     FoldFunction(LAMBDA a, b : a * b, FlatT(X)[i], TLCEval([j \in 1..k |-> FlatT(others[j])[i]]))]),
                   X.shape,
-                  FoldFunction(LAMBDA a, b : a * b, X.den, [j \in 1..k |-> others[j].den]))
+                  FoldFunction(LAMBDA a, b : a * b, X.den, TLCEval([j \in 1..k |-> others[j].den])))
   ELSE
     LET den == LcmAll(X.den, others)
         xs  == FlatT(Rescale(X, den))
-        os  == [j \in 1..k |-> FlatT(Rescale(others[j], den))]
-        sum(i) == SumF([j \in 1..k |-> os[j][i]])
-    IN CASE kind = "add"      -> FromFlat([i \in 1..Len(xs) |-> xs[i] + sum(i)], X.shape, den)
-         [] kind = "subtract" -> FromFlat([i \in 1..Len(xs) |-> xs[i] - sum(i)], X.shape, den)
-         [] kind = "mean"     -> FromFlat([i \in 1..Len(xs) |-> xs[i] + sum(i)], X.shape, den * (k + 1))
+        os  == TLCEval([j \in 1..k |-> FlatT(Rescale(others[j], den))])
+        sum(i) == SumF(TLCEval([j \in 1..k |-> os[j][i]]))
+    IN CASE kind = "add"      -> FromFlat(TLCEval([i \in 1..Len(xs) |-> xs[i] + sum(i)]), X.shape, den)
+         [] kind = "subtract" -> FromFlat(TLCEval([i \in 1..Len(xs) |-> xs[i] - sum(i)]), X.shape, den)
+         [] kind = "mean"     -> FromFlat(TLCEval([i \in 1..Len(xs) |-> xs[i] + sum(i)]), X.shape, den * (k + 1))
 
 \* ======================= one primitive layer =======================
 \* parameters with the bias scaled by the input's denominator
 ScaledParams(L, den) ==
-  IF L.kind = "dense" THEN [W |-> L.params.W, b |-> [i \in 1..Len(L.params.b) |-> L.params.b[i] * den]]
+  IF L.kind = "dense" THEN [W |-> L.params.W, b |-> TLCEval([i \in 1..Len(L.params.b) |-> L.params.b[i] * den])]
   ELSE L.params
 
 \* (pre, post) of a primitive layer on input X (flat or spatial, as the code accepts both)
@@ -129,12 +129,15 @@ FwdFrom(net, st, i) ==
         src == SkipSources(net, i)
         x   == IF src = {} THEN x0
                ELSE LET a == (CHOOSE p \in src : TRUE)[2]     \* at most one source per target
-                    IN Accumulate(net.skipacc, x0, <<ReshapeT(st.acts[a], x0.shape)>>)
+                        \* "the input that was fed to layer a": what layer a processed (its own accumulated input);
+                        \* for a = i it is the layer's ordinary input
+                        other == IF a = i THEN x0 ELSE st.ins[a]
+                    IN Accumulate(net.skipacc, x0, <<ReshapeT(other, x0.shape)>>)
         y0  == LayerOut(L, x)
         lps == {lp \in net.loops : lp.outof = i}
         y   == IF lps = {} THEN y0
                ELSE LET lp == CHOOSE q \in lps : TRUE
-                        outs == LoopOuts(net, lp, st.acts[lp.into], <<y0>>, 1)
+                        outs == LoopOuts(net, lp, IF lp.into = i THEN x ELSE st.ins[lp.into], <<y0>>, 1)
                     IN Accumulate(net.loopacc, outs[1], SubSeq(outs, 2, Len(outs)))
     IN FwdFrom(net, [acts |-> Append(st.acts, y), ins |-> Append(st.ins, x)], i + 1)
 
@@ -173,23 +176,88 @@ BwdFrom(net, st, i, G, acc) ==
   ELSE
     LET L  == net.layers[i]
         r  == LayerBackward(L, st.ins[i], G)
+        \* gradient w.r.t. the accumulated input of layer i: the direct path plus every additive skip whose
+        \* SOURCE is layer i (those targets consumed the input layer i processed)
+        skips == {p \in net.connect : p[2] = i /\ p[1] # i}
+        extra == [t \in skips |-> ReshapeT(acc.gins[t[1]], r.dx.shape)]
+        gA    == IF skips = {} THEN r.dx
+                 ELSE FromFlat(TLCEval([n \in 1..Len(FlatT(r.dx)) |->
+                                  FlatT(r.dx)[n] + SumF(TLCEval([t \in skips |-> FlatT(extra[t])[n]]))]), r.dx.shape, 1)
+        \* a layer connected to itself processes x0 + x0
+        gsum  == IF <<i, i>> \in net.connect
+                   THEN FromFlat(TLCEval([n \in 1..Len(FlatT(gA)) |-> 2 * FlatT(gA)[n]]), gA.shape, 1) ELSE gA
         acc2 == [grads |-> [acc.grads EXCEPT ![i] = [dw |-> r.dw, db |-> r.db]],
-                 gins  |-> [acc.gins EXCEPT ![i] = r.dx]]
-        \* gradient flowing to the value acts[i] (= output of layer i-1, or the network input):
-        \* the direct path through layer i plus every additive skip whose SOURCE is layer i
-        \* (the source's "input fed to layer a" is acts[a], shared with the ordinary path)
-        skips == {p \in net.connect : p[2] = i}
-        extra == [t \in skips |-> ReshapeT(acc2.gins[t[1]], r.dx.shape)]
-        gsum  == IF skips = {} THEN r.dx
-                 ELSE FromFlat([n \in 1..Len(FlatT(r.dx)) |->
-                                  FlatT(r.dx)[n] + SumF([t \in skips |-> FlatT(extra[t])[n]])], r.dx.shape, 1)
+                 gins  |-> [acc.gins EXCEPT ![i] = gA]]
     IN BwdFrom(net, st, i - 1, gsum, acc2)
 
 Backward(net, X, G) ==
   LET st == Forward(net, X)
       n  == Len(net.layers)
-      empty == [grads |-> [i \in 1..n |-> [dw |-> <<>>, db |-> <<>>]], gins |-> [i \in 1..n |-> T1(<<>>, 1)]]
+      empty == [grads |-> TLCEval([i \in 1..n |-> [dw |-> <<>>, db |-> <<>>]]), gins |-> TLCEval([i \in 1..n |-> T1(<<>>, 1)])]
   IN BwdFrom(net, st, n, G, empty)
+
+\* ======================= gradients are derivatives (checked by TLC on bounded instances) =======================
+\* the input layer i actually processes, as the nested sequence its operator works on
+LayerInput(L, X) ==
+  IF L.kind = "dense" THEN FlatT(X)
+  ELSE IF RankT(X) = 1 THEN Unflat3(X.data, L.in[1], L.in[2], L.in[3]) ELSE X.data
+
+\* No ReLU pre-activation is exactly 0 and no pool window has two equal maxima (the properties quantify away from these).
+KinkFree(n, X) ==
+  LET st == Forward(n, X) IN
+  \A i \in 1..Len(n.layers) :
+    LET L == n.layers[i] x == LayerInput(L, st.ins[i]) IN
+    CASE L.kind = "pool" -> PoolTieFree(x, L.cfg)
+      [] L.kind = "fb" -> TRUE
+      [] L.cfg.act = "relu" ->
+           LET p == FlatR(RankOf(L.cfg), Pre(L.cfg, ScaledParams(L, st.ins[i].den), x)) IN \A k \in 1..Len(p) : p[k] # 0
+      [] OTHER -> TRUE
+
+\* <G, Predict(n, X)>
+Lnet(n, X, G) == LET y == Predict(n, X) IN SumF(TLCEval([k \in 1..Len(FlatT(y)) |-> FlatT(y)[k] * FlatT(G)[k]]))
+
+\* both networks (same architecture, different parameters) are in the same linear piece on input X:
+\* every ReLU pre-activation stays in the closed half-line of its non-zero base value, every pool window keeps its arg-max
+SamePattern(n1, n2, X) ==
+  LET a == Forward(n1, X) b == Forward(n2, X) IN
+  \A i \in 1..Len(n1.layers) :
+    LET L1 == n1.layers[i] L2 == n2.layers[i]
+        x1 == LayerInput(L1, a.ins[i]) x2 == LayerInput(L2, b.ins[i])
+    IN CASE L1.kind = "pool" ->
+              LET q1 == PoolPre(x1, L1.cfg) q2 == PoolPre(x2, L2.cfg) IN
+              \A ch \in 1..L1.cfg.c, oh \in 1..PoolOH(L1.cfg), ow \in 1..PoolOW(L1.cfg) :
+                 \E q \in Window(L1.cfg, oh, ow) : x1[ch][q[1]][q[2]] = q1[ch][oh][ow] /\ x2[ch][q[1]][q[2]] = q2[ch][oh][ow]
+         [] L1.kind = "fb" -> TRUE
+         [] L1.cfg.act = "relu" ->
+              LET p1 == FlatR(RankOf(L1.cfg), Pre(L1.cfg, L1.params, x1))
+                  p2 == FlatR(RankOf(L2.cfg), Pre(L2.cfg, L2.params, x2))
+              IN \A k \in 1..Len(p1) : (p1[k] > 0 /\ p2[k] >= 0) \/ (p1[k] < 0 /\ p2[k] <= 0)
+         [] OTHER -> TRUE
+
+Bump(n, i, P2) == [n EXCEPT !.layers[i].params = P2]
+\* d is the derivative of <G, Predict> in the coordinate whose unit perturbations are the parameter records Pp / Pm of layer i
+CoordNet(n, X, G, i, Pp, Pm, d) ==
+  (SamePattern(n, Bump(n, i, Pp), X) /\ SamePattern(n, Bump(n, i, Pm), X)) =>
+     LET l0 == Lnet(n, X, G) IN
+     /\ Lnet(Bump(n, i, Pp), X, G) - l0 = d
+     /\ l0 - Lnet(Bump(n, i, Pm), X, G) = d
+
+\* every parameter gradient of Backward is the exact derivative (primitive layers, den = 1)
+GradOK(n, X, G) ==
+  KinkFree(n, X) =>
+    LET B == Backward(n, X, G) IN
+    \A i \in 1..Len(n.layers) :
+      LET L == n.layers[i] P == L.params IN
+      CASE L.kind \in {"conv", "deconv"} ->
+             \A f \in 1..L.cfg.f, ch \in 1..L.cfg.c, a \in 1..L.cfg.kh, b \in 1..L.cfg.kw :
+                CoordNet(n, X, G, i, [K |-> [P.K EXCEPT ![f][ch][a][b] = @ + 1]],
+                                     [K |-> [P.K EXCEPT ![f][ch][a][b] = @ - 1]], B.grads[i].dw[f][ch][a][b])
+        [] L.kind = "dense" ->
+             /\ \A r \in 1..L.cfg.f, c \in 1..L.cfg.c :
+                  CoordNet(n, X, G, i, [P EXCEPT !.W[r][c] = @ + 1], [P EXCEPT !.W[r][c] = @ - 1], B.grads[i].dw[r][c])
+             /\ L.cfg.bias => \A r \in 1..L.cfg.f :
+                  CoordNet(n, X, G, i, [P EXCEPT !.b[r] = @ + 1], [P EXCEPT !.b[r] = @ - 1], B.grads[i].db[r])
+        [] OTHER -> TRUE
 
 \* ======================= builder (C08) =======================
 IsSpatialKind(k) == k \in {"conv", "deconv", "pool"}
@@ -225,4 +293,28 @@ MarkFlatten(layers, kind) ==
   IF kind = "dense" /\ layers # <<>> /\ Len(layers[Len(layers)].out) = 3
     THEN [layers EXCEPT ![Len(layers)].flatten = TRUE]
     ELSE layers
+\* ======================= constructors used by the bounded instances =======================
+HP(f, kh, kw, sh, sw, ph, pw, dh, dw, act, bias) ==
+  [f |-> f, kh |-> kh, kw |-> kw, sh |-> sh, sw |-> sw, ph |-> ph, pw |-> pw, dh |-> dh, dw |-> dw, act |-> act, bias |-> bias]
+
+LayerParams(L, seed) ==
+  CASE L.kind \in {"conv", "deconv"} ->
+         [K |-> TLCEval([f \in 1..L.cfg.f |-> TLCEval([ch \in 1..L.cfg.c |-> TLCEval([a \in 1..L.cfg.kh |-> TLCEval([b \in 1..L.cfg.kw |->
+                   Val(seed, ((f*3 + ch)*5 + a)*7 + b)])])])])]
+    [] L.kind = "pool"  -> [K |-> <<>>]
+    [] L.kind = "dense" -> [W |-> TLCEval([i \in 1..L.cfg.f |-> TLCEval([j \in 1..L.cfg.c |-> Val(seed, i*11 + j)])]),
+                            b |-> TLCEval([i \in 1..L.cfg.f |-> IF L.cfg.bias THEN Val(seed + 5, i) ELSE 0])]
+
+\* the same with parameters in {-1, 0, 1} (keeps products of several accumulations far below 2^24)
+Small(seed, i) == ((Val(seed, i) + 3) % 3) - 1
+LayerParamsS(L, seed) ==
+  CASE L.kind \in {"conv", "deconv"} ->
+         [K |-> TLCEval([f \in 1..L.cfg.f |-> TLCEval([ch \in 1..L.cfg.c |-> TLCEval([a \in 1..L.cfg.kh |-> TLCEval([b \in 1..L.cfg.kw |->
+                   Small(seed, ((f*3 + ch)*5 + a)*7 + b)])])])])]
+    [] L.kind = "pool"  -> [K |-> <<>>]
+    [] L.kind = "dense" -> [W |-> TLCEval([i \in 1..L.cfg.f |-> TLCEval([j \in 1..L.cfg.c |-> Small(seed, i*11 + j)])]),
+                            b |-> TLCEval([i \in 1..L.cfg.f |-> IF L.cfg.bias THEN Small(seed + 5, i) ELSE 0])]
+MkLayerS(kind, hp, P, seed) == LET L0 == NewLayer(kind, hp, P) IN L0 @@ [params |-> LayerParamsS(L0, seed)]
+\* a complete layer record (announced shapes + seeded parameters) added after output shape P
+MkLayer(kind, hp, P, seed) == LET L0 == NewLayer(kind, hp, P) IN L0 @@ [params |-> LayerParams(L0, seed)]
 =============================================================================
